@@ -15,3 +15,4 @@ import SPModel.Pipeline
 import SPModel.PipelineSem
 import SPModel.RandomGen
 import SPModel.Decode
+import SPModel.Implied
